@@ -67,9 +67,11 @@ Section RingFacts.
     Proof.
       induction cx as [|a cx IH]; intros cy sums Hs Fx Fy Hl.
       - destruct cy; [|discriminate]. cbn [combine fold_left concat map]. rewrite ssum_nil. ring.
-      - destruct cy as [|b cy]; [discriminate|]. inversion Fx; subst. inversion Fy; subst.
+      - destruct cy as [|b cy]; [discriminate|].
+        pose proof (Forall_inv Fx) as Ha. pose proof (Forall_inv_tail Fx) as Fx'.
+        pose proof (Forall_inv Fy) as Hb. pose proof (Forall_inv_tail Fy) as Fy'. cbn beta in Ha, Hb.
         cbn [combine fold_left fst snd concat].
-        rewrite IH; [| rewrite lane_acc_length; assumption | assumption | assumption | cbn in Hl; lia].
+        rewrite IH; [| rewrite lane_acc_length; exact Hs | exact Fx' | exact Fy' | cbn in Hl; lia].
         rewrite lane_acc_sum by lia.
         rewrite combine_app_eq by lia. rewrite map_app, ssum_app. ring.
     Qed.
@@ -123,8 +125,9 @@ Section RingFacts.
     Proof.
       induction cx as [|a cx IH]; intros sums Hs Fx.
       - cbn [fold_left concat map]. rewrite ssum_nil. ring.
-      - inversion Fx; subst. cbn [fold_left concat].
-        rewrite IH; [| rewrite lane_acc1_length; reflexivity | assumption].
+      - pose proof (Forall_inv Fx) as Ha. pose proof (Forall_inv_tail Fx) as Fx'. cbn beta in Ha.
+        cbn [fold_left concat].
+        rewrite IH; [| rewrite lane_acc1_length; exact Hs | exact Fx'].
         rewrite lane_acc1_sum by lia. rewrite map_app, ssum_app. ring.
     Qed.
 
@@ -196,9 +199,11 @@ Section RingFacts.
   Proof.
     induction cx as [|a cx IH]; intros cy sums Hs Fx Fy Hl.
     - destruct cy; [|discriminate]. cbn [combine fold_left concat map]. rewrite ssum_nil. ring.
-    - destruct cy as [|b cy]; [discriminate|]. inversion Fx; subst. inversion Fy; subst.
+    - destruct cy as [|b cy]; [discriminate|].
+      pose proof (Forall_inv Fx) as Ha. pose proof (Forall_inv_tail Fx) as Fx'.
+      pose proof (Forall_inv Fy) as Hb. pose proof (Forall_inv_tail Fy) as Fy'. cbn beta in Ha, Hb.
       cbn [combine fold_left fst snd concat].
-      rewrite IH; [| rewrite lane_fma_length; assumption | assumption | assumption | cbn in Hl; lia].
+      rewrite IH; [| rewrite lane_fma_length; exact Hs | exact Fx' | exact Fy' | cbn in Hl; lia].
       rewrite lane_fma_sum by lia.
       rewrite combine_app_eq by lia. rewrite map_app, ssum_app. ring.
   Qed.
@@ -217,7 +222,7 @@ Section RingFacts.
     cbn [fst snd] in *. subst xr. destruct yr; [|discriminate].
     destruct Hx as (Ex & Fx & _). destruct Hy as (Ey & Fy & _).
     rewrite rsum_spec, (fma_fold W) by (try apply repeat_length; assumption).
-    rewrite ssum_repeat0. subst xs ys. rewrite !app_nil_r. unfold dot_spec. fold ssum.
-    change (fun p : R * R => rmul (fst p) (snd p)) with (pf rmul). ring.
+    rewrite ssum_repeat0. subst xs ys. rewrite !app_nil_r.
+    transitivity (ssum (map (pf rmul) (combine (concat xc) (concat yc)))); [ring | reflexivity].
   Qed.
 End RingFacts.
